@@ -4,8 +4,8 @@
 use chalk_integration::interner::ChalkIr;
 use chalk_ir::could_match::CouldMatch;
 use chalk_ir::fold::shift::Shift;
-use chalk_ir::fold::{FallibleTypeFolder, Subst, TypeFoldable};
-use chalk_ir::interner::HasInterner;
+use chalk_ir::fold::{FallibleTypeFolder, Subst, TypeFoldable, TypeFolder};
+use chalk_ir::interner::{HasInterner, Interner};
 use chalk_ir::*;
 use vh::ir::*;
 use vh::sexp::Sexp;
@@ -50,6 +50,14 @@ impl FallibleTypeFolder<ChalkIr> for IdFolder {
     type Error = std::convert::Infallible;
     fn as_dyn(&mut self) -> &mut dyn FallibleTypeFolder<ChalkIr, Error = Self::Error> { self }
     fn interner(&self) -> ChalkIr { ChalkIr }
+}
+
+/// the same "changes nothing" folder through the infallible trait's defaults
+#[derive(chalk_derive::FallibleTypeFolder)]
+struct IdFolderT<I: Interner> { interner: I }
+impl<I: Interner> TypeFolder<I> for IdFolderT<I> {
+    fn as_dyn(&mut self) -> &mut dyn TypeFolder<I> { self }
+    fn interner(&self) -> I { self.interner }
 }
 
 #[derive(Debug)]
@@ -157,6 +165,7 @@ fn main() {
                 Ok(any_sx(&map_any!(to_any(&a[1])?, |t| identity_subst(k.clone(), t))))
             }
             "FoldId" => Ok(any_sx(&map_any!(to_any(&a[0])?, |t| t.try_fold_with(&mut IdFolder, DebruijnIndex::INNERMOST).unwrap()))),
+            "FoldIdT" => Ok(any_sx(&map_any!(to_any(&a[0])?, |t| t.fold_with(&mut IdFolderT { interner: ChalkIr }, DebruijnIndex::INNERMOST)))),
             "CouldMatch" => Ok(Sexp::boolean(could_match(&to_any(&a[0])?, &to_any(&a[1])?)?)),
             "CouldMatchSlice" => {
                 let (x, y) = (params(&a[0])?, params(&a[1])?);
